@@ -1018,7 +1018,7 @@ func runB7(p *an.Prog, r *an.Result) {
 	// the loop function: the one that defers a closure and calls ctx.Set in a loop
 	var fn *ssa.Function
 	for _, f := range p.Funcs {
-		if f.Pkg != nil && an.RelPkg(f.Pkg.Pkg.Path()) == "tags" && len(callsNamed(f, "(render.Context).RenderChildren")) > 0 && len(callsNamed(f, "(render.Context).Set")) > 0 {
+		if isLoopFunction(f) {
 			fn = f
 		}
 	}
@@ -1147,6 +1147,22 @@ func runB8(p *an.Prog, r *an.Result) {
 			if ex, ok := val.(*ssa.Extract); ok && ex.Index == 0 {
 				if c, ok := ex.Tuple.(*ssa.Call); ok && an.CallName(&c.Call) == "(render.Context).InnerString" {
 					okVal = true
+				}
+			}
+			// or InnerString written out: the String() of a buffer the children were rendered into
+			if sc := an.CallOf(val); sc != nil && strings.HasSuffix(an.CallName(sc), ".String") && len(an.Args(sc)) == 1 {
+				buf := an.Args(sc)[0]
+				for _, rc := range callsNamed(fn, "(render.Context).RenderChildren") {
+					for _, o := range an.Origins(rc.Call.Args[0], func(v ssa.Value) []ssa.Value {
+						if mi, ok := v.(*ssa.MakeInterface); ok {
+							return []ssa.Value{mi.X}
+						}
+						return an.StepValue(v)
+					}) {
+						if o == buf || sameValue(o, buf) {
+							okVal = true
+						}
+					}
 				}
 			}
 			// key: the captured variable name, which the compiler took from node.Args
@@ -1505,6 +1521,53 @@ func runB9(p *an.Prog, r *an.Result) {
 	if !okSrc {
 		r.Bad(rname, "Compile of the read source", an.FuncPos(compileFn), "the source that was read must be what is compiled")
 	}
+	// the cache is filled under the path it was given: every update of a Cache map in the module uses
+	// a parameter of the function as the key, unchanged (an alias under the base name makes a missing
+	// file resolve to some other path's source)
+	for _, f := range p.Funcs {
+		if f.Blocks == nil || isMainPkg(f) {
+			continue
+		}
+		an.EachInstr(f, func(in ssa.Instruction) {
+			mu, ok := in.(*ssa.MapUpdate)
+			if !ok || !strings.HasSuffix(describe(p, mu.Map), ".Cache") {
+				return
+			}
+			r.Counts["cache updates"]++
+			keyOK := true
+			for _, o := range an.Origins(mu.Key, an.StepValue) {
+				if _, isPar := o.(*ssa.Parameter); !isPar {
+					keyOK = false
+				}
+			}
+			if keyOK {
+				r.OK(an.FuncName(f), "cache entry stored under the path given", in.Pos(), "")
+			} else {
+				r.Bad(an.FuncName(f), "cache entry stored under a computed key ("+describe(p, mu.Key)+")", in.Pos(), "the include cache is consulted with the full path of the missing file; an entry stored under anything but the path the caller registered makes other names resolve to this source")
+			}
+		})
+	}
+	// ... at the location of the include tag: a nested include resolves its name against the path of
+	// the template that was parsed, and an error inside the included text is reported at the tag
+	if len(cc) == 1 && len(cc[0].Call.Args) >= 3 {
+		locOK := true
+		for _, o := range an.Origins(cc[0].Call.Args[len(cc[0].Call.Args)-1], an.StepValue) {
+			ld, ok := o.(*ssa.UnOp)
+			if !ok {
+				locOK = false
+				continue
+			}
+			fa, ok := ld.X.(*ssa.FieldAddr)
+			if !ok || fieldName(fa) != "SourceLoc" {
+				locOK = false
+			}
+		}
+		if locOK {
+			r.OK(rname, "the included source is compiled at the include tag's location", cc[0].Pos(), "Compile(source, node.SourceLoc)")
+		} else {
+			r.Bad(rname, "the included source is compiled at another location", cc[0].Pos(), "the location handed to Compile is not the SourceLoc of the including node: includes inside the included text would resolve against another directory, and errors would be reported elsewhere")
+		}
+	}
 }
 
 // ---------------------------------------------------------------------------
@@ -1632,7 +1695,7 @@ func (lf linForm) minus(o linForm) linForm {
 func runB10(p *an.Prog, r *an.Result) {
 	var fn *ssa.Function
 	for _, f := range p.Funcs {
-		if f.Pkg != nil && an.RelPkg(f.Pkg.Pkg.Path()) == "tags" && len(callsNamed(f, "(render.Context).RenderChildren")) > 0 && len(callsNamed(f, "(render.Context).Set")) > 0 {
+		if isLoopFunction(f) {
 			fn = f
 		}
 	}
@@ -2504,4 +2567,30 @@ func isFieldOf(v ssa.Value, pkg, typ, field string) bool {
 	}
 	st, ok := owner.Underlying().(*types.Struct)
 	return ok && idx < st.NumFields() && st.Field(idx).Name() == field
+}
+
+// isLoopFunction: the function of package tags that runs a loop body: it renders children, binds
+// variables, and walks an iterator (invokes Len and Index on a value of one interface type) - the last
+// tells it from a capture that renders its children into a buffer and binds the result.
+func isLoopFunction(f *ssa.Function) bool {
+	if f.Pkg == nil || an.RelPkg(f.Pkg.Pkg.Path()) != "tags" || len(callsNamed(f, "(render.Context).RenderChildren")) == 0 || len(callsNamed(f, "(render.Context).Set")) == 0 {
+		return false
+	}
+	lens, idxs := map[types.Type]bool{}, map[types.Type]bool{}
+	an.EachInstr(f, func(in ssa.Instruction) {
+		if c, ok := in.(*ssa.Call); ok && c.Call.IsInvoke() {
+			switch c.Call.Method.Name() {
+			case "Len":
+				lens[c.Call.Value.Type()] = true
+			case "Index":
+				idxs[c.Call.Value.Type()] = true
+			}
+		}
+	})
+	for t := range lens {
+		if idxs[t] {
+			return true
+		}
+	}
+	return false
 }
